@@ -135,7 +135,7 @@ func (c *Ctx) numeralTheory() {
 	}
 	c.declared["numeral-theory"] = true
 	c.declared["model-note:numerals"] = true
-	for _, d := range []string{"uf_isnum_1 (Int) Int", "uf_numval_1 (Int) Int", "uf_utext_3 (Int Int Int) Int", "uf_stext_3 (Int Int Int) Int", "uf_dchar_2 (Int Int) Int", "strbyte (Int Int) Int", "strlen (Int) Int"} {
+	for _, d := range []string{"uf_isnum_1 (Int) Int", "uf_numval_1 (Int) Int", "uf_utext_3 (Int Int Int) Int", "uf_stext_3 (Int Int Int) Int", "uf_ntext_4 (Int Int Int Int) Int", "uf_dchar_2 (Int Int) Int", "strbyte (Int Int) Int", "strlen (Int) Int"} {
 		name := strings.SplitN(d, " ", 2)[0]
 		if !c.declared[name] {
 			c.declared[name] = true
@@ -146,6 +146,9 @@ func (c *Ctx) numeralTheory() {
 		// introduction
 		"(forall ((bv!s Int) (bv!z Int) (bv!n Int)) (! (=> (and (>= bv!n 0) (>= bv!z 0) (= (strlen bv!s) (+ bv!z (nd10 bv!n))) (forall ((bv!t Int)) (=> (and (<= 0 bv!t) (< bv!t bv!z)) (= (strbyte bv!s bv!t) 48))) (forall ((bv!t Int)) (=> (and (<= 0 bv!t) (< bv!t (nd10 bv!n))) (= (strbyte bv!s (+ bv!z bv!t)) (uf_dchar_2 bv!n bv!t))))) (= (uf_utext_3 bv!s bv!z bv!n) 1)) :pattern ((uf_utext_3 bv!s bv!z bv!n))))",
 		"(forall ((bv!s Int) (bv!g Int) (bv!n Int)) (! (=> (and (>= bv!n 0) (or (= bv!g 43) (= bv!g 45)) (= (strlen bv!s) (+ 1 (nd10 bv!n))) (= (strbyte bv!s 0) bv!g) (forall ((bv!t Int)) (=> (and (<= 0 bv!t) (< bv!t (nd10 bv!n))) (= (strbyte bv!s (+ 1 bv!t)) (uf_dchar_2 bv!n bv!t))))) (= (uf_stext_3 bv!s bv!g bv!n) 1)) :pattern ((uf_stext_3 bv!s bv!g bv!n))))",
+		// general numeral: an optional sign character g (0: none), z zeros, the decimal text of n
+		"(forall ((bv!s Int) (bv!g Int) (bv!z Int) (bv!n Int)) (! (=> (and (>= bv!n 0) (>= bv!z 0) (or (= bv!g 0) (= bv!g 43) (= bv!g 45)) (= (strlen bv!s) (+ (ite (= bv!g 0) 0 1) bv!z (nd10 bv!n))) (=> (not (= bv!g 0)) (= (strbyte bv!s 0) bv!g)) (forall ((bv!t Int)) (=> (and (<= 0 bv!t) (< bv!t bv!z)) (= (strbyte bv!s (+ (ite (= bv!g 0) 0 1) bv!t)) 48))) (forall ((bv!t Int)) (=> (and (<= 0 bv!t) (< bv!t (nd10 bv!n))) (= (strbyte bv!s (+ (ite (= bv!g 0) 0 1) bv!z bv!t)) (uf_dchar_2 bv!n bv!t))))) (= (uf_ntext_4 bv!s bv!g bv!z bv!n) 1)) :pattern ((uf_ntext_4 bv!s bv!g bv!z bv!n))))",
+		"(forall ((bv!s Int) (bv!g Int) (bv!z Int) (bv!n Int)) (! (=> (= (uf_ntext_4 bv!s bv!g bv!z bv!n) 1) (and (= (uf_isnum_1 bv!s) 1) (= (uf_numval_1 bv!s) (ite (= bv!g 45) (- bv!n) bv!n)))) :pattern ((uf_ntext_4 bv!s bv!g bv!z bv!n))))",
 		// elimination
 		"(forall ((bv!s Int) (bv!z Int) (bv!n Int)) (! (=> (= (uf_utext_3 bv!s bv!z bv!n) 1) (and (= (uf_isnum_1 bv!s) 1) (= (uf_numval_1 bv!s) bv!n))) :pattern ((uf_utext_3 bv!s bv!z bv!n))))",
 		"(forall ((bv!s Int) (bv!g Int) (bv!n Int)) (! (=> (= (uf_stext_3 bv!s bv!g bv!n) 1) (and (= (uf_isnum_1 bv!s) 1) (= (uf_numval_1 bv!s) (ite (= bv!g 45) (- bv!n) bv!n)))) :pattern ((uf_stext_3 bv!s bv!g bv!n))))",
